@@ -671,9 +671,11 @@ def evaluate__idiv_operator(self: XPathToken, context: ta.ContextType = None) ->
         raise self.error('XPST0005')
 
     try:
-        if math.isinf(op1):
+        # Integers are neither infinite nor NaN (and may be out of the range of float)
+        if not isinstance(op1, int) and math.isinf(op1):
             raise self.error('FOAR0001' if op2 == 0 else 'FOAR0002')
-        elif math.isnan(op1) or math.isnan(op2):
+        elif not isinstance(op1, int) and math.isnan(op1) or \
+                not isinstance(op2, int) and math.isnan(op2):
             raise self.error('FOAR0002')
     except TypeError as err:
         if isinstance(context, XPathSchemaContext):
